@@ -416,7 +416,12 @@ impl<'a> Socket<'a> {
                     }
 
                     let packet = Ipv4Packet::new_unchecked(&*packet.into_inner());
-                    let ipv4_repr = match Ipv4Repr::parse(&packet, _checksum_caps) {
+                    // The checksum was just filled in, or zeroed for the device to
+                    // fill: do not verify it here.
+                    let ipv4_repr = match Ipv4Repr::parse(
+                        &packet,
+                        &crate::phy::ChecksumCapabilities::ignored(),
+                    ) {
                         Ok(x) => x,
                         Err(_) => {
                             net_trace!("raw: malformed ipv4 packet in queue, dropping.");
